@@ -57,6 +57,7 @@ def run(case):
     if isinstance(x, onp.ndarray):
         x.flags.writeable = False
     pos, npos = lay["pos"], lay["npos"]
+    an = pos - npos if lay.get("neg") else pos          # the argnum handed to the operator (negative: counted from the end)
     args = [0.5 + q for q in range(npos)]
     args[pos] = x
     kw = {"scale": float(scale)} if lay["kw"] else {}
@@ -64,23 +65,23 @@ def run(case):
     plain = f(*args, **kw)
     try:
         if op == "jacobian":
-            r = jacobian(f, pos)(*args, **kw)
+            r = jacobian(f, an)(*args, **kw)
         elif op == "jacobian_of_jacobian":
-            r = jacobian(jacobian(f, pos), pos)(*args, **kw)
+            r = jacobian(jacobian(f, an), an)(*args, **kw)
         elif op == "grad":
-            r = grad(f, pos)(*args, **kw)
+            r = grad(f, an)(*args, **kw)
         elif op == "holomorphic_grad":
-            r = holomorphic_grad(f, pos)(*args, **kw)
+            r = holomorphic_grad(f, an)(*args, **kw)
         elif op == "elementwise_grad":
-            r = elementwise_grad(f, pos)(*args, **kw)
+            r = elementwise_grad(f, an)(*args, **kw)
         elif op == "hessian":
-            r = hessian(f, pos)(*args, **kw)
+            r = hessian(f, an)(*args, **kw)
         elif op == "hessian_vector_product":
             r = hessian_vector_product(f, pos)(*(args + [vin]), **kw)
         elif op == "hessian_tensor_product":
             r = hessian_tensor_product(f, pos)(*(args + [vin]), **kw)
         elif op == "make_hvp":
-            hvp, g0 = make_hvp(f, pos)(*args, **kw)
+            hvp, g0 = make_hvp(f, an)(*args, **kw)
             r = hvp(vin)
             o["extra_ok"] = bool(onp.allclose(g0, grad(f, pos)(*args, **kw)))
         elif op == "tensor_jacobian_product":
@@ -88,25 +89,25 @@ def run(case):
         elif op == "vector_jacobian_product":
             r = vector_jacobian_product(f, pos)(*(args + [vout]), **kw)
         elif op == "make_vjp":
-            vjp, val = make_vjp(f, pos)(*args, **kw)
+            vjp, val = make_vjp(f, an)(*args, **kw)
             r = vjp(vout)
             o["extra_ok"] = bool(not isbox(val) and onp.array_equal(val, plain) and onp.shape(val) == onp.shape(plain) and type(val) is type(plain))
         elif op == "make_ggnvp":
             r = make_ggnvp(f, f_argnum=pos)(*args, **kw)(vin)
         elif op == "deriv":
-            r = deriv(f, pos)(*args, **kw)
+            r = deriv(f, an)(*args, **kw)
         elif op == "make_jvp":
-            val, r = make_jvp(f, pos)(*args, **kw)(vin)
+            val, r = make_jvp(f, an)(*args, **kw)(vin)
             o["extra_ok"] = bool(not isbox(val) and onp.array_equal(val, plain) and onp.shape(val) == onp.shape(plain) and type(val) is type(plain))
         elif op == "make_jvp_reversemode":
-            r = make_jvp_reversemode(f, pos)(*args, **kw)(vin)
+            r = make_jvp_reversemode(f, an)(*args, **kw)(vin)
         elif op == "value_and_grad":
-            val, r = value_and_grad(f, pos)(*args, **kw)
+            val, r = value_and_grad(f, an)(*args, **kw)
             # the value is the plain call's value: same entries, same shape, same type (np.float64 stays np.float64, (1,1) stays (1,1))
             o["extra_ok"] = bool(not isbox(val) and onp.array_equal(val, plain) and onp.shape(val) == onp.shape(plain) and type(val) is type(plain))
         elif op == "grad_and_aux":
             aux_obj = {"tag": onp.array([1.0, 2.0, 3.0]), "n": 3.5}
-            r, aux = grad_and_aux(lambda *a, **k: (f(*a, **k), aux_obj), pos)(*args, **kw)
+            r, aux = grad_and_aux(lambda *a, **k: (f(*a, **k), aux_obj), an)(*args, **kw)
             o["extra_ok"] = bool(isinstance(aux, dict) and set(aux) == {"tag", "n"} and not isbox(aux["tag"]) and not isbox(aux["n"])
                                  and onp.array_equal(aux["tag"], [1.0, 2.0, 3.0]) and aux["n"] == 3.5)
         elif op == "jac_thru_aux":
